@@ -125,7 +125,7 @@ class Plan:
 
     def __init__(self, seed=0, policy="random", stick=0, pct_depth=0, pct_steps=1000,
                  select_pick="random", signals=(), budget=200000, post_budget=2000, post_rr=True,
-                 now=None, choices=None, picks=None, hashseed=None, iofault=None, timeouts=1):
+                 now=None, choices=None, picks=None, hashseed=None, iofault=None, timeouts=1, writer_pref=False):
         self.seed = seed
         self.policy = policy
         self.stick = stick
@@ -140,6 +140,7 @@ class Plan:
         self.choices = choices
         self.picks = picks
         self.hashseed = hashseed if hashseed is not None else (seed & 0xFFFFFFFF)
+        self.writer_pref = writer_pref      # RwLock readers queue behind a waiting writer (std's behaviour on Linux)
         self.timeouts = timeouts    # deadlines that may expire although other threads could run (rt/src/chan.rs)
         self.iofault = iofault      # None | "sw=<seed>" | "epipe=<N>" | "enospc=<N>" (';'-joined): see preload/seed.c
 
@@ -149,7 +150,8 @@ class Plan:
              "select_pick=%s" % self.select_pick,
              "signals=%s" % ",".join(str(s) for s in self.signals),
              "budget=%d" % self.budget, "post_budget=%d" % self.post_budget,
-             "post_rr=%d" % (1 if self.post_rr else 0), "timeouts=%d" % getattr(self, "timeouts", 1)]
+             "post_rr=%d" % (1 if self.post_rr else 0), "timeouts=%d" % getattr(self, "timeouts", 1),
+             "writer_pref=%d" % (1 if getattr(self, "writer_pref", False) else 0)]
         if self.now is not None:
             L.append("now=%d.%09d" % (self.now[0], self.now[1]))
         if self.choices is not None:
@@ -205,6 +207,7 @@ def random_plan(rng, n_workers, signals=(), now=None, budget=200000, policies=No
     if rng.random() < 0.25:
         plan.iofault = "sw=%d" % rng.getrandbits(31)
     plan.timeouts = rng.choice((0, 1, 1, 2, 4))
+    plan.writer_pref = rng.random() < 0.5
     # one run in five: reads of the input files (and of extracted copies) return fewer bytes than asked for in most calls
     if rng.random() < 0.2:
         sr = "sr=%d" % rng.getrandbits(31)
